@@ -34,7 +34,10 @@ def hxs(s):
 def impl(args, delay, warp, inc=False):
     fac = mock.Mock()
     try:
-        command.build_command_list(fac, list(args), delay, warp, inc)
+        with Budget(5.0):
+            command.build_command_list(fac, list(args), delay, warp, inc)
+    except Spin:
+        return "err does-not-terminate", None
     except command.CommandParseError:
         return "err parse", None
     except IndexError:
@@ -221,13 +224,28 @@ def run(ctx):
             delay = r.choice([None, 0, 10, 125])
             warp = r.choice([1.0, 0.5, 2.0, 4.0])
             inc = r.random() < .3
-            st, ops = impl(words, delay, warp, inc)
+            # a file in the current directory that happens to be NAMED like a command word used in the script: the word is
+            # still the command (a script file is only looked for when the word is nothing else)
+            decoys = []
+            if si % 12 == 5:
+                for w_ in sorted({w_ for w_ in words if w_ in WORDS})[:2]:
+                    with open(w_, "w") as f:
+                        f.write("click 3\n")
+                    decoys.append(w_)
+                if decoys:
+                    ctx.count("cases_with_a_file_named_like_a_command")
+            try:
+                st, ops = impl(words, delay, warp, inc)
+            finally:
+                for d_ in decoys:
+                    os.remove(d_)
             want = spec_parse(words, delay, warp, files, inc)
             nt = len(words) >= 4 or any(w_ in files for w_ in words)
             ctx.case({"words": words, "delay": delay, "warp": warp, "files": {k: v[0] for k, v in files.items()}, "result": st} if len(ctx.samples) < 3 and nt and st == "ok" else None,
                      key=repr((words, delay, sorted(files))) if nt else None)
             ctx.count(st.replace(" ", "_"))
-            rp = {"input": {"words": words, "delay": delay, "warp": warp, "incremental": inc, "files": {k: {"tokens": v[0], "content": v[1]} for k, v in files.items()}},
+            rp = {"input": {"words": words, "delay": delay, "warp": warp, "incremental": inc, "files": {k: {"tokens": v[0], "content": v[1]} for k, v in files.items()},
+                            "other_files_in_cwd": {d_: "click 3" for d_ in decoys}},
                   "how": "vncdotool.command.build_command_list on a mock factory (in a temp dir holding the script files) vs a recogniser of the documented grammar"}
             if want is None:
                 if st == "ok":
